@@ -13,7 +13,7 @@ python3 tools/gen_manifest.py >/dev/null
 git add MANIFEST.json
 rm -f coq/.Makefile.d coq/Makefile coq/Makefile.conf
 python3 tools/gen_coqproject.py
-python3 tools/gen_extract.py
+
 left=$(git diff --name-only --diff-filter=U)
 if [ -n "$left" ]; then echo "UNRESOLVED: $left"; exit 1; fi
 git commit -q -m "merge $1" || true
